@@ -67,14 +67,21 @@ def positions(case):
 
 
 def build_poses(case):
+    """SE(3) matrices of the case; case["dtype"] (e.g. "int64") gives integer-valued matrices of that numpy dtype
+    (integer grid positions, identity / quarter-turn rotations only) - they are valid pose sequences like the float ones"""
     n = n_poses(case)
     pos = positions(case)
+    dtype = np.dtype(case.get("dtype", "float64"))
     poses = []
     for k in range(n):
         m = np.eye(4)
         if "rot" in case:
             m[:3, :3] = _rotm(case["rot"][k])
         m[:3, 3] = pos[k]
+        if dtype != np.float64:
+            if not np.array_equal(m, np.round(m)):
+                raise ValueError("integer dtype case with non-integer entries")
+            m = m.astype(dtype)
         poses.append(m)
     return poses
 
@@ -118,6 +125,9 @@ def impl(case):
     from evo.core import filters, metrics
     from evo.core.units import Unit
     poses = build_poses(case)
+    if case.get("via") == "path":      # the pose list as a trajectory object hands it to the RPE metric
+        from evo.core.trajectory import PosePath3D
+        poses = PosePath3D(poses_se3=poses).poses_se3
     snap = [p.tobytes() for p in poses]
     delta, tol = unhex(case["delta"]), unhex(case["tol"])
     unit, allp = case["unit"], bool(case["all_pairs"])
@@ -390,9 +400,13 @@ def shrink(case):
 
 
 # ------------------------------------------------------------------ generators
-def mk(level, unit, all_pairs, delta, tol, pos=None, rot=None, n=None, exact=False):
+def mk(level, unit, all_pairs, delta, tol, pos=None, rot=None, n=None, exact=False, dtype=None, via=None):
     c = {"level": level, "unit": unit, "all_pairs": bool(all_pairs), "delta": hexf(delta), "tol": hexf(tol),
          "exact": bool(exact)}
+    if dtype is not None:
+        c["dtype"] = dtype
+    if via is not None:
+        c["via"] = via
     if pos is not None:
         c["pos"] = [[hexf(x) for x in p] for p in pos]
     if rot is not None:
@@ -520,6 +534,61 @@ def grid_cases(ctx):
     return out
 
 
+DIAG_STEPS = [(1, 0, 0), (1, 1, 0), (0, 1, 1), (1, 1, 1), (0, 0, 0), (2, 1, 0), (0, -1, 0), (-1, 1, -1), (0, 0, 2), (3, 4, 0)]
+
+
+def int_dtype_cases(ctx):
+    """pose matrices of INTEGER numpy dtype (np.eye(4, dtype=int) with integer grid positions, as hand-written or
+    grid-map poses are), handed over directly or through PosePath3D(poses_se3=...): integer grids whose steps include
+    diagonal moves (step lengths 1, sqrt2, sqrt3, sqrt5, 5, 0), exhaustively for 2..4 (quick) / 2..5 poses over a step
+    alphabet, plus random lattice walks; all delta units, both modes"""
+    out = []
+    rng = ctx.np_rng(1010)
+    seqs = []
+    alpha = DIAG_STEPS[:6]
+    for n in range(2, ctx.n(4, 5) + 1):
+        seqs.extend(itertools.product(range(len(alpha)), repeat=n - 1))
+    ctx.rng.shuffle(seqs)
+    k = 0
+    for sq in seqs[:ctx.n(240, 4000)]:
+        pos = np.concatenate([np.zeros((1, 3)), np.cumsum([alpha[i] for i in sq], axis=0)]).tolist()
+        axis_only = all(sum(1 for v in alpha[i] if v) <= 1 for i in sq)
+        for delta in ctx.rng.sample([1.0, 2.0, 3.0, 4.0, 1.5, 2.5], 2):
+            dt = ["int64", "int64", "int32", "int64"][k % 4]
+            via = "path" if k % 3 == 0 else None
+            if k % 4 == 3:
+                out.append(mk("hi" if k % 8 == 3 else "lo", "meters", False, delta, 0.0, pos=pos, exact=axis_only, dtype=dt, via=via))
+            elif k % 2 == 0:
+                out.append(mk("hi", "meters", True, delta, ctx.rng.choice([0.0, 0.1, 0.25, 0.5]), pos=pos, exact=axis_only,
+                              dtype=dt, via=via))
+            else:
+                out.append(mk("lo", "meters", True, delta, ctx.rng.choice([0.0, 0.25, 0.5, 1.0]), pos=pos, exact=axis_only,
+                              dtype=dt, via=via))
+            k += 1
+    for k in range(ctx.n(120, 1200)):       # random lattice walks with diagonal moves
+        n = int(rng.integers(3, 40))
+        st = np.array([DIAG_STEPS[i] for i in rng.integers(0, len(DIAG_STEPS), n - 1)]) * rng.choice([-1, 1], (n - 1, 1))
+        pos = np.concatenate([np.zeros((1, 3)), np.cumsum(st, axis=0)]).astype(float).tolist()
+        allp = k % 3 != 2
+        level = "hi" if k % 2 == 0 else "lo"
+        delta = float(rng.choice([1.0, 2.0, 3.0, 5.0, 7.0, 2.5, 10.0]))
+        tolv = float(rng.choice([0.0, 0.05, 0.1, 0.25])) * (1.0 if level == "hi" else delta)
+        out.append(mk(level, "meters", allp, delta, tolv, pos=pos, dtype=["int64", "int32"][k % 5 == 4],
+                      via="path" if k % 4 == 1 else None))
+    # the other delta units on integer matrices: frames, quarter turns about z
+    for n in range(1, 7):
+        for d in range(1, n + 1):
+            out.append(mk("hi" if (n + d) % 2 else "lo", "frames", bool(d % 2), float(d), 0.1, n=n, exact=True, dtype="int64",
+                          via="path" if n % 2 else None))
+    for k in range(ctx.n(24, 120)):
+        n = int(rng.integers(2, 7))
+        rot = [["q", int(v)] for v in np.cumsum(rng.integers(0, 3, n))]
+        unit, dv = [("degrees", 90.0), ("degrees", 180.0), ("radians", math.pi / 2), ("degrees", 45.0)][k % 4]
+        out.append(mk("hi" if k % 2 else "lo", unit, bool((k // 2) % 2), dv, [0.0, 0.1][k % 2], rot=rot, dtype="int64",
+                      via="path" if k % 3 == 0 else None))
+    return out
+
+
 def random_cases(ctx):
     from scipy.spatial.transform import Rotation
     rng = ctx.np_rng(10)
@@ -600,7 +669,7 @@ def run(ctx, replay=None, proofs_ok=True):
     if replay is not None:
         cases = [replay["case"]]
     else:
-        cases = corpus() + grid_cases(ctx) + random_cases(ctx)
+        cases = corpus() + grid_cases(ctx) + random_cases(ctx) + int_dtype_cases(ctx)
         head, rest = cases[:3], cases[3:]
         ctx.rng.shuffle(rest)        # spread the expensive cases over the parallel case files
         cases = head + rest
@@ -608,15 +677,18 @@ def run(ctx, replay=None, proofs_ok=True):
                                    shrink=shrink, nontrivial=nontrivial, per_file=ctx.n(300, 400))
     hist = {}
     for c in cases:
-        b = "%s:%s:%s:n<=%d%s" % (c["level"], c["unit"], "all" if c["all_pairs"] else "consecutive",
-                                  10 ** len(str(n_poses(c))), ":exact" if c.get("exact") else "")
+        b = "%s:%s:%s:n<=%d%s%s%s" % (c["level"], c["unit"], "all" if c["all_pairs"] else "consecutive",
+                                      10 ** len(str(n_poses(c))), ":exact" if c.get("exact") else "",
+                                      ":" + c["dtype"] if c.get("dtype") else "", ":via-PosePath3D" if c.get("via") else "")
         hist[b] = hist.get(b, 0) + 1
     n_exact = sum(1 for c in cases if c.get("exact") or c["unit"] in ("degrees", "radians"))
     cov = {"evaluations": stats["evaluations"], "distinct_nontrivial": stats["distinct_nontrivial"],
            "rule": "corpus + exhaustive exact grids (frames: every n x delta; meters: step sequences over {0,1,2,3} "
                    "x deltas incl. unreachable / hit exactly x tolerances; angles: z-rotation steps in multiples of "
                    "pi/8 and 90 degrees x deltas incl. exact oracle hits) + random walks (stationary stretches, jumps, "
-                   "UTM-size offsets, lattice walks, exact all-pairs hits) and random rotations; distinct by input; "
+                   "UTM-size offsets, lattice walks, exact all-pairs hits) and random rotations + integer-dtype pose matrices "
+                   "(int64/int32, directly and through PosePath3D) on integer grids with diagonal moves, exhaustive over a "
+                   "step alphabet for small n and random lattice walks, all units; distinct by input; "
                    "non-trivial = at least 3 poses and at least one pair selected",
            "samples": cases[:3] + cases[-2:], "input_distribution": hist, "exhaustive": True,
            "regimes": {"exact": n_exact, "rounded": stats["evaluations"] - n_exact, "fragile": FRAGILE[0]},
